@@ -57,26 +57,44 @@ def _rerun_unstable(run):
 
 CHECK = {
     "suites": [
-        suite("consensus", "c17", 28, 240, stdin=True, args=["-suite", "consensus"], timeout={"quick": 600, "thorough": 1500}),
+        suite("consensus", "c17", 14, 240, stdin=True, args=["-suite", "consensus"], timeout={"quick": 600, "thorough": 1500}),
+        suite("fault", "c17", 10, 80, stdin=True, args=["-suite", "fault"], timeout={"quick": 600, "thorough": 1500}),
+        suite("conc", "c17", 7, 90, stdin=True, args=["-suite", "conc"], timeout={"quick": 600, "thorough": 1500}),
+        suite("join", "c17", 4, 120, stdin=True, args=["-suite", "join"], timeout={"quick": 600, "thorough": 1500}),
         suite("cluster", "c17", 5, 100, stdin=True, args=["-suite", "cluster"], timeout={"quick": 600, "thorough": 2400}),
     ],
     "gen": [{"pkg": "extract_c17", "out": "lean/ClusterVerif/Gen/C17.lean"}],
     "extra": [_rerun_unstable],
     "search_seeds": {"quick": 1, "thorough": 2},
     "lean_sources": ["ClusterVerif/Model/C17.lean", "ClusterVerif/Spec/C17.lean", "ClusterVerif/Lemmas/C17.lean", "ClusterVerif/Lemmas/C17Step.lean",
+                     "ClusterVerif/Model/C17Fault.lean", "ClusterVerif/Spec/C17Fault.lean", "ClusterVerif/Lemmas/C17Fault.lean",
                      "ClusterVerif/Gen/C17.lean", "ClusterVerif/Model/Pin.lean"],
     "rule": "consensus suite: scripts of 4-14 steps over 1-4 real raft.Consensus peers on loopback (bootstrap of 1-3 peers; pin/unpin, "
             "start+add+ready of a staging peer, add of a present peer, removal of an absent / other / own / leader / last peer, restart, "
             "shutdown+Clean of a removed peer, a non-voting server through the hook with WaitForSync, the same peer re-added and re-removed "
             "on the same data folder more often than backups_rotate (1-2) with snapshots forced), issued at leaders and followers; "
             "cluster suite (5 scripts quick, 100 thorough): full Cluster peers (Join, PeerAdd, PeerRemove with and without re-pinning, leave on shutdown, restart). "
+            "fault suite (10 scripts quick + corpus, 80 thorough): AddPeer / RmPeer on 2-3 real peers while the first k forwarded requests are refused "
+            "or executed-and-answered-with-an-error by the leader's endpoint, or the leader loses the leadership between the leader check and its "
+            "Raft call, or the leader is partitioned away (connection gaters) right before the call and the network heals after the others elected, "
+            "or Raft refuses the request (empty peer ID); k in {0, 1, commit_retries, commit_retries+1, all}, commit_retries in {0,1,2}, "
+            "issued at leaders and followers; result, forwards seen, own Raft calls and every member's peerset compared with the traced retry loops "
+            "under the oracle the plan stands for. conc suite (7 scripts quick, 90 thorough): phases of 2-4 calls (one membership change + pins/unpins) "
+            "started together from different members, observed at sync points; admitted iff some order of each phase explains it. join suite "
+            "(4 scripts quick, 120 thorough): a staging peer is added and waited for while a burst of 16-40 pins is logged. "
             "One case per observation point (script so far => what every running peer reports once all caught up); non-trivial = the script "
             "contains a membership step; distinct by case line",
     "trusted_base": ["hashicorp/raft 1.1.1 and go-libp2p-raft: log agreement, configuration changes, snapshots (the model assumes one log whose prefixes members hold)",
-                     "consensus/raft/verif_export_c17.go (build tag verif): read access to Raft indexes/configuration, AddNonvoter",
+                     "consensus/raft/verif_export_c17.go, verif_export_c17x.go (build tag verif): read access to Raft indexes/configuration, AddNonvoter, LeadershipTransfer",
+                     "fault injection of suite fault: the harness' Consensus RPC endpoint (refuse / execute-then-fail the caller's forwards), OpenCensus span names "
+                     "consensus/redirectToLeader, consensus/raft/AddPeer, consensus/RemovePeer used to count leader-side attempts and to time the leadership transfer",
                      "harness RPC services standing in for the Cluster RPC API at consensus level; StoreMonitor / FakeIPFS at cluster level",
                      "go/ast skeleton extractor (harness/extract_c17) for the statement order of the anchored functions"],
-    "assumptions": ["scripts are sequential: a step starts after the previous one returned and all members caught up",
+    "assumptions": ["consensus / cluster / fault scripts are sequential: a step starts after the previous one returned and all members caught up; "
+                    "conc phases and the join burst are concurrent, observed at sync points",
+                    "fault plans: one fault kind per attempt, the forwarded call's own retry loop on the leader is healthy; one partition shape (the leader alone, "
+                    "call issued at the leader, healed once the others elected); no SIGKILL of the leader",
+                    "C17_conc_full (what the concurrent model admits meets the clauses) is stated, not proved: validated by suite conc",
                     "steps are issued only while a quorum of voters is running (otherwise the harness reports the script inconclusive)",
                     "the Raft data folder is observed after Clean: no raft.db, no snapshot; rotated copies are counted next to it",
                     "pins in scripts carry no origins (not decodable from the Raft log: recorded finding K01 of C08/C01)"],
@@ -89,7 +107,10 @@ META = {
             "removed, a peer that WaitForSync calls ready has applied every entry logged before its own addition, a removed peer shuts down and cleans "
             "after stopping consensus, a peer that could not leave keeps its data, Clean empties the data folder after every removal in any history of re-adding the same peer "
             "(backup rotation, with or without a trailing slash in data_folder), re-pins precede RmPeer; and (allowed_holds, no proviso): every script "
-            "outcome the model allows satisfies every clause of the property written from its text. The model is tied to the code by running seeded scripts on real Raft peers (and full clusters) and comparing outcomes, peersets "
+            "outcome the model allows satisfies every clause of the property written from its text. Failure arms: the retry loops with the trace of their attempts "
+            "(error <-> no attempt seen to succeed; acknowledged -> committed, the log untouched or one entry longer; a failed call without a lost reply changes nothing; "
+            "a retried AddPeer whose first attempt committed with its answer lost is acknowledged and adds once), fault_allowed_holds for every fault plan, "
+            "interleaved_log_agree for any interleaving of configuration and pin entries, join_allowed_holds for a joiner during a burst of pins. The model is tied to the code by running seeded scripts on real Raft peers (and full clusters) and comparing outcomes, peersets "
             "and pinsets of every member with the model, by evaluating the Lean property clauses on the implementation's own outputs, and by a go/ast "
             "skeleton of the anchored functions over which the guard/ordering facts are re-checked by `decide`.",
     "note": "Partial by nature: agreement is hashicorp/raft's (trusted). Trusted: Lean kernel, hand-written model/spec, harness, hook file "
